@@ -8,6 +8,8 @@
 //!   look-alike strings for text, all-byte-value blobs for binary data;
 //! * (F) slot pairs (thorough): every unordered pair of slots x a short atom list per kind;
 //! * (H) relations: every pair of compatible slots holding equal / prefix-related content (see `relations`);
+//! * (G') user-property lists with repeated names (all 3-lists over three atoms with two equal names, all 4-lists
+//!   over two names) alone in the property set of every owner;
 //! * (G) flag/code products: every flag combination (CONNECT flag group, PUBLISH dup/qos/retain)
 //!   and every reason code behind every single-property set.
 //!
@@ -439,6 +441,33 @@ fn flag_products(family: Family) -> Vec<Ast> {
         }
     }
     if v5 {
+        // user-property lists with repeated names: all 3-lists over (a,1) (b,2) (a,3) and all 4-lists over (a,1) (b,2),
+        // alone in the property set of every owner (same-name entries adjacent, separated, first = last)
+        let up = |k: &str, v: &str| Prop { id: tables::USER_PROPERTY, val: PVal::Pair(k.into(), v.into()) };
+        let three = [up("a", "1"), up("b", "2"), up("a", "3")];
+        let two = [up("a", "1"), up("b", "2")];
+        let mut lists: Vec<Props> = Vec::new();
+        for i in 0..27usize {
+            lists.push(vec![three[i % 3].clone(), three[(i / 3) % 3].clone(), three[i / 9].clone()]);
+        }
+        for i in 0..16usize {
+            lists.push((0..4).map(|b| two[(i >> b) & 1].clone()).collect());
+        }
+        for l in &lists {
+            out.push(Ast::Connect { level: 5, clean: true, keep_alive: 1, props: l.clone(), client_id: "c".into(), will: None, username: None, password: None });
+            out.push(Ast::Connect { level: 5, clean: true, keep_alive: 1, props: vec![], client_id: "c".into(), will: Some(Will { qos: 0, retain: false, props: l.clone(), topic: "w".into(), payload: vec![1] }), username: None, password: None });
+            out.push(Ast::Connack { session_present: false, code: 0, props: l.clone() });
+            out.push(Ast::Publish { dup: false, qos: 0, retain: false, topic: "t".into(), pid: None, props: l.clone(), payload: vec![1] });
+            for t in [PUBACK, PUBREC, PUBREL, PUBCOMP] {
+                out.push(Ast::Ack { typ: t, pid: 7, code: 0, props: l.clone() });
+            }
+            out.push(Ast::Subscribe { pid: 7, props: l.clone(), topics: vec![("a".into(), 0)] });
+            out.push(Ast::Suback { pid: 7, props: l.clone(), codes: vec![0] });
+            out.push(Ast::Unsubscribe { pid: 7, props: l.clone(), topics: vec!["a".into()] });
+            out.push(Ast::Unsuback { pid: 7, props: l.clone(), codes: vec![0] });
+            out.push(Ast::Disconnect { code: 0, props: l.clone() });
+            out.push(Ast::Auth { code: 0, props: l.clone() });
+        }
         // every reason code behind every single property (and the full set), both session-present values
         for (t, owner) in [(CONNACK, CONNACK), (DISCONNECT, DISCONNECT), (AUTH, AUTH), (PUBACK, PUBACK), (PUBREC, PUBREC), (PUBREL, PUBREL), (PUBCOMP, PUBCOMP)] {
             let mut sets = single_props(owner);
